@@ -128,6 +128,9 @@ def run(F, ck, tier):
     pins.check(F, ck, 'R09.9', labels={'stark'}, floor=10)
     ck.rule('R09.10', 'prover, verifier and in-circuit verifier build the simulated opening set with the same per-challenge count (as a function of T and P)')
     simulation_siblings(F, ck, 'R09.10')
+    # R09.11 / R09.12
+    recombination_base(F, ck, 'R09.11', [('starky::verifier::verify_stark_proof_with_challenges', 'starky'), ('starky::recursive_verifier::verify_stark_proof_with_challenges_circuit', 'starky')])
+    degree_bound(F, ck)
     # R09.6 cap order (native and circuit)
     for fq in ('starky::verifier::verify_stark_proof_with_challenges', 'starky::recursive_verifier::verify_stark_proof_with_challenges_circuit'):
         fn = F.one(fq, crate='starky')
@@ -253,3 +256,105 @@ def simulation_siblings(F, ck, rule):
     ck.ob(rule, 'simulated-openings:per-challenge-count', ok, 'all builders take %s powers per simulating challenge' % (list(vals)[0][0] if ok else '?') if ok else
           'SIBLING DISAGREEMENT: the simulated opening set is built with different per-challenge counts: %s - prover and verifier then absorb different dummy openings, derive different zeta and every honest proof is rejected '
           '(or the vectors are sliced out of range)' % '; '.join('%s: %s' % (k, v) for k, v in sorted(polys.items())))
+
+
+def recombination_base(F, ck, rule, sites):
+    """the quotient chunks t_0, t_1, .. are recombined as sum t_i(zeta) * (zeta^n)^i: the base handed to reduce_with_powers /
+    ReducingFactorTarget::new is the POWER zeta^n itself - not Z_H(zeta) = zeta^n - 1, which has the same type"""
+    from . import defrender
+    from .facts import walk, callee, parse_path
+    ck.rule(rule, 'quotient chunks are recombined with base zeta^n: the base argument of reduce_with_powers / ReducingFactorTarget::new resolves to an exponentiation call, not to a difference')
+    n = 0
+    for q, crate in sites:
+        fn = F.one(q, crate=crate)
+        if fn is None:
+            ck.ob(rule, 'anchor:' + q.split('::')[-1], False, 'ANCHOR-MISSING ' + q)
+            continue
+        D = defrender.Defs(fn)
+        for x in walk(fn.body):
+            if x.get('k') not in ('Call', 'MCall'):
+                continue
+            nm = parse_path(callee(x) or '')[1] or x.get('n')
+            arg = None
+            if nm == 'reduce_with_powers' and len(x.get('a', [])) == 2:
+                arg = x['a'][1]
+            elif nm == 'new' and 'ReducingFactorTarget' in (callee(x) or '') and x.get('a'):
+                arg = x['a'][0]
+            if arg is None:
+                continue
+            node = arg
+            for _ in range(4):
+                while node.get('k') in ('Ref', 'Cast', 'Un'):
+                    node = node['e']
+                if node.get('k') == 'Local':
+                    d = D.defs.get(node['id'])
+                    if d and d[0] == 'let':
+                        node = d[1]
+                        continue
+                break
+            nm2 = (parse_path(callee(node) or '')[1] or node.get('n') or '') if node.get('k') in ('Call', 'MCall') else ''
+            ok = nm2.startswith('exp')
+            n += 1
+            ck.ob(rule, 'base:%s:%s' % (fn.name, nm), ok, 'base is %s(..)' % nm2 if ok else
+                  'WRONG RECOMBINATION BASE in %s: %s is given a base that is not an exponentiation of zeta (it resolves to a %s%s): with more than one quotient chunk per challenge the recombined t(zeta) is wrong and honest proofs are rejected '
+                  '(or a prover can exploit the mismatch)' % (fn.qual, nm, node.get('k'), (' ' + node.get('op')) if node.get('op') else (' ' + nm2 if nm2 else '')), x.get('s'))
+    ck.floor(rule, 'recombination sites', n, len(sites))
+
+
+def degree_bound(F, ck):
+    """the prover accepts constraint degrees up to blowup + 1 (the quotient then has degree factor <= blowup)"""
+    from . import poly
+    from .facts import walk
+    ck.rule('R09.12', 'prove_with_commitment asserts constraint_degree <= 2^rate_bits + 1 (normalised): a tighter bound rejects STARKs the verifier and the quotient computation support, a looser one lets the quotient alias on the LDE domain')
+    fn = F.one('starky::prover::prove_with_commitment', crate='starky')
+    if fn is None:
+        ck.ob('R09.12', 'anchor', False, 'ANCHOR-MISSING prove_with_commitment')
+        return
+    E = poly.Ev(F)
+    env = {}
+    for s_ in walk(fn.body):
+        if s_.get('k') == 'Let' and 'i' in s_ and s_['p'].get('k') == 'Bind' and s_['p']['id'] not in env:
+            try:
+                env[s_['p']['id']] = E.ev(fn, s_['i'], env, 2)
+            except poly.Unknown as ex:
+                env[s_['p']['id']] = ex
+    found = None
+    fl = flow.Flow(F, fn)
+    for e in fl.events:
+        if e.kind != 'assert':
+            continue
+        c = e.node.get('c') if e.node.get('k') == 'If' else None
+        if c is None:
+            continue
+        neg = True          # assert!(cond) expands to `if !cond { panic }`
+        while c.get('k') == 'Un' and c.get('op') == 'Not':
+            neg = not neg
+            c = c['e']
+        if c.get('k') != 'Bin' or c['op'] not in ('Lt', 'Le', 'Gt', 'Ge'):
+            continue
+        try:
+            l, r = E.ev(fn, c['l'], env, 2), E.ev(fn, c['r'], env, 2)
+        except poly.Unknown:
+            continue
+        syms = {x for m in list(l) + list(r) for x in m}
+        if not any('constraint_degree' in x for x in syms):
+            continue
+        op = c['op']
+        if neg:      # condition that must hold is the un-negated one: `if !(a <= b) panic` -> a <= b must hold
+            pass
+        d = poly.add(l, r, -1)
+        if op in ('Gt', 'Ge'):
+            d = poly.add({}, d, -1)
+            op = 'Lt' if op == 'Gt' else 'Le'
+        if op == 'Le':
+            d = poly.add(d, poly.const(1), -1)
+        found = (d, e)
+    if found is None:
+        ck.ob('R09.12', 'degree-bound', False, 'prove_with_commitment no longer asserts a bound on constraint_degree', '%s:%d' % (fn.file, fn.line))
+        return
+    d, e = found
+    degs = [m for m in d if any('constraint_degree' in x for x in m)]
+    pows = [m for m in d if any(x.startswith('2^(') for x in m)]
+    ok = len(degs) == 1 and d[degs[0]] == 1 and len(pows) == 1 and d[pows[0]] == -1 and d.get((), 0) == -2 and len(d) == 3
+    ck.ob('R09.12', 'degree-bound', ok, 'constraint_degree - 2^rate_bits - 2 < 0' if ok else
+          'prove_with_commitment requires %s < 0 instead of constraint_degree - 2^rate_bits - 2 < 0 (i.e. degree <= blowup + 1)' % poly.show(d), e.loc())
